@@ -773,7 +773,11 @@ def _list_index(it, self, args, kw):
 
 @handler("seq.append")
 def _seq_append(it, self, args, kw):
-    raise OutOfSubset("VSeq.append must go through an attribute/variable rebinding")
+    x = args[0]
+    if self.kind == "str" and not isinstance(x, VStr) or self.kind == "int" and not isinstance(x, VInt):
+        raise OutOfSubset("append of a differently typed element to a homogeneous symbolic list")
+    self.e = z3.Concat(self.e, z3.Unit(x.e))
+    return NONE
 
 
 @handler("dict.keys")
@@ -1462,3 +1466,19 @@ def _spec_utf8(it, self, args, kw):
 @handler("spec.TAG")
 def _spec_tag(it, self, args, kw):
     return VTag(args[0], args[1])
+
+
+@handler("spec.FILE")
+def _spec_file(it, self, args, kw):
+    """Current content of a file in the ghost file system (bytes)."""
+    return VBytes(z3.Select(it.fs_bin, _s().path_term(it, args[0])))
+
+
+@handler("spec.TEXTFILE")
+def _spec_textfile(it, self, args, kw):
+    return VStr(z3.Select(it.fs_txt, _s().path_term(it, args[0])))
+
+
+@handler("spec.EXISTS")
+def _spec_exists(it, self, args, kw):
+    return VBool(z3.Select(it.fs_exists, _s().path_term(it, args[0])))
